@@ -10,7 +10,7 @@ from ref import pus as RP
 from ref.crc16 import crc16
 
 PROPERTY = "C02"
-LEVEL = "exploration"
+LEVEL = "model_checking"  # bounded-exhaustive enumeration of executions against a reference model (DESIGN.md 1, 2.1)
 EXHAUSTIVE = True
 RULE = (
     "telecommand = (service 8, subservice 8, APID 11, seq count 14, source ID 16, ack 4, application data). "
